@@ -54,7 +54,7 @@ static Reg r_c04_to({ "C04.toint", "C04", "rc",
 static SweepInfo c04_sweep(Ctx& ctx, const Clause& cl)
 {
   SweepInfo si; bool thorough = ctx.tier == "thorough";
-  uint64_t stride32 = thorough ? 1 : 509; uint64_t phase = thorough ? 0 : ctx.seed % stride32;
+  uint64_t stride32 = thorough ? 1 : 61; uint64_t phase = thorough ? 0 : ctx.seed % stride32;
   si.exhaustive = thorough; si.note = thorough ? "all values of int8/uint8/int16/uint16/int32/uint32 through fixed_t{n} and back" : strf("all values of the 8- and 16-bit types; int32/uint32 every %llu-th value (phase %llu) plus the 2^17 values around each range limit", (unsigned long long)stride32, (unsigned long long)phase);
   uint64_t idx = 0;
   for (int ti = 0; ti < 6; ++ti) {
@@ -190,7 +190,7 @@ static Reg r_c05_tofp({ "C05.tofp", "C05", "rc",
 static SweepInfo c05_f32_sweep(Ctx& ctx, const Clause& cl)
 {
   SweepInfo si; bool thorough = ctx.tier == "thorough";
-  uint64_t stride = thorough ? 1 : 251, phase = thorough ? 0 : ctx.seed % stride;
+  uint64_t stride = thorough ? 1 : 31, phase = thorough ? 0 : ctx.seed % stride;
   si.exhaustive = thorough; si.note = thorough ? "all 2^32 float bit patterns through fixed_t{v}" : strf("every %llu-th float bit pattern (phase %llu) through fixed_t{v}", (unsigned long long)stride, (unsigned long long)phase);
   uint64_t total = ((uint64_t)1 << 32); uint64_t per = (total + ctx.nworkers - 1) / ctx.nworkers; uint64_t lo = per * ctx.worker, hi = std::min(total, lo + per);
   uint64_t start = lo + ((phase + stride - lo % stride) % stride);
